@@ -412,7 +412,7 @@ def run(R):
               "thorough adds ALL well-formed tie/NaN rows up to length 4. Each output row goes through the Lean checker / model.")
     R.assumptions = ["orders that numpy chooses among ties/NaNs are treated as arbitrary: outputs are judged by relation checkers proved sound for every order",
                      "generator draws are re-drawn by the harness from the same seed with the same numpy calls"]
-    items = corpus() + gen_items(R, 10000 if R.thorough else 300, R.thorough)
+    items = corpus() + gen_items(R, 10000 if R.thorough else 800, R.thorough)
     if R.thorough:
         R.exhaustive = True
         items += gen_exhaustive()
